@@ -16,6 +16,7 @@ REGISTRY = [
     ("gen-driverskel", "DriverSkel.v", (C.REPO,)),
     ("gen-mainwiring", "MainWiring.v", (C.REPO,)),
     ("gen-conftags", "ConfTags.v", ()),
+    ("gen-nas", "NasDesc.v", ("coq",)),
 ]   # (sub, outfile, args)
 
 
